@@ -56,6 +56,7 @@ func closeSyncFile(f *os.File) error {
 				return err
 			}
 		}
+		verifCrashPoint("close.synced", f.Name())
 		if err := f.Close(); err != nil {
 			if !os.IsNotExist(err) {
 				return err
@@ -70,6 +71,7 @@ func removeFile(fname string) error {
 	if err := os.Remove(fname); (err != nil) && !os.IsNotExist(err) {
 		return errors.Wrapf(err, "remove %v", fname)
 	}
+	verifCrashPoint("removed", fname)
 	return nil
 }
 
@@ -79,6 +81,7 @@ func openOrCreateFile(fname string, perm os.FileMode) (f *os.File, err error) {
 		if f, err = os.OpenFile(fname, os.O_RDWR|os.O_CREATE, perm); err != nil {
 			return nil, fmt.Errorf("error opening or creating file: %s: %s", fname, err.Error())
 		}
+		verifCrashPoint("created", fname)
 	}
 	return f, nil
 }
